@@ -1286,6 +1286,14 @@ class TexArgs(list):
             arg = TexGroup.parse(arg)
         return arg
 
+    def __index_all(self, item):
+        """Index of `item` in `.all`: the object itself if it is there (two
+        arguments may have equal text), otherwise the first equal one."""
+        for j, other in enumerate(self.all):
+            if other is item:
+                return j
+        return self.all.index(item)
+
     def append(self, arg):
         """Append whitespace, an unparsed argument string, or an argument
         object.
@@ -1358,7 +1366,7 @@ class TexArgs(list):
                 i = len(self) - 1
 
             before = self[i - 1]
-            index_before = self.all.index(before)
+            index_before = self.__index_all(before)
             self.all.insert(index_before + 1, arg)
 
     def remove(self, item):
@@ -1390,8 +1398,9 @@ class TexArgs(list):
         0
         """
         item = self.__coerce(item)
-        self.all.remove(item)
-        super().remove(item)
+        index = self.index(item)  # ValueError if absent, like list.remove
+        del self.all[self.__index_all(super().__getitem__(index))]
+        super().pop(index)
 
     def pop(self, i=-1):
         """Pop argument object at provided index.
@@ -1407,8 +1416,7 @@ class TexArgs(list):
         BraceGroup('arg0')
         """
         item = super().pop(i)
-        j = self.all.index(item)
-        self.all.pop(j)
+        self.all.pop(self.__index_all(item))
         return item
 
     def reverse(self):
